@@ -160,3 +160,28 @@ Theorem C03_case_label_negative_only_satisfiable : exists sh,
   all_modes_neg sh = true /\ length (fst (coverage_cases sh)) = 6%nat.
 Proof. exists sh_negonly. exact case_label_negative_only_nonvacuous. Qed.
 Print Assumptions C03_case_label_negative_only_satisfiable.
+
+(* the exact shape of F5: the j-th value (j >= 1) of the i-th body is sent in a case whose
+   label is the label m0 of the first value, while the body component carries its own label mj *)
+Theorem C03_body_tail_inherits_first : forall sh c i j,
+  In c (fst (coverage_cases sh)) -> c_kind c = KBodyTail i j ->
+  exists b m0 tl mj,
+    nth_error (sh_bodies sh) i = Some b /\ b_modes b = m0 :: tl /\ (1 <= j)%nat /\ nth_error tl (j - 1) = Some mj /\
+    c_mode c = m0 /\ comp_get CBody (c_comps c) = Some mj.
+Proof. exact body_tail_inherits_first. Qed.
+Print Assumptions C03_body_tail_inherits_first.
+
+(* ---- anyOf / oneOf over numeric branches: a yielded value violates the branch it was derived
+   from (for all branch lists, key orders and seen sets) ... ---- *)
+Theorem C03_anyof_negative_partial : forall bs seen i v d k,
+  forallb (forallb numeric_key) bs = true ->
+  In (i, (Some v, d, k)) (anyof_negative_numbers bs seen) ->
+  exists b, nth_error bs i = Some b /\ In k b /\ violates k v = true.
+Proof. exact anyof_negative_partial. Qed.
+Print Assumptions C03_anyof_negative_partial.
+
+(* F7: ... but the sibling branches are not consulted: the value may conform to the anyOf *)
+Theorem C03_anyof_negative_refuted : exists bs i v d k,
+  In (i, (Some v, d, k)) (anyof_negative_numbers bs []) /\ existsb (fun b => conforms b v) bs = true.
+Proof. exists [[KMinimum 5]; [KMaximum 10]], O, (PInt 4), NSmaller, (KMinimum 5). exact anyof_negative_refuted. Qed.
+Print Assumptions C03_anyof_negative_refuted.
